@@ -70,6 +70,9 @@ pub enum ContentClass {
     /// one incompressible 512-byte block repeated: every 512-byte sector is stored raw and all sectors (and so
     /// their checksums) are identical
     RepeatedRandomBlock,
+    /// random bytes whose last four bytes are chosen so that the CRC-32 of the whole content is 0x00000000 — the
+    /// value a reader may mistake for "no checksum recorded" (only placed explicitly, not part of ALL_CLASSES)
+    Crc32Zero,
 }
 
 pub const ALL_CLASSES: [ContentClass; 9] = [
@@ -150,6 +153,8 @@ pub enum Attrs {
     /// attributes_option(GenerateFull) and then generate_crcs(false): CRC32+MD5 attributes without sector
     /// checksums (the attribute digests are the only protection of the file data)
     FullThenNoCrcs,
+    /// attributes_option(GenerateCrc32) and then generate_crcs(false): the CRC32 attribute is the only protection
+    Crc32ThenNoCrcs,
 }
 
 #[derive(Clone, Debug, PartialEq, Eq, Serialize, Deserialize)]
@@ -181,14 +186,14 @@ impl ArchiveSpec {
         match self.attrs {
             Attrs::Crc32 | Attrs::Full => true,
             Attrs::CrcsThenNone => true,
-            Attrs::FullThenNoCrcs => false,
+            Attrs::FullThenNoCrcs | Attrs::Crc32ThenNoCrcs => false,
             Attrs::None => self.crcs,
         }
     }
     /// does the archive get an (attributes) file?
     pub fn has_attributes(&self) -> bool {
         match self.attrs {
-            Attrs::Crc32 | Attrs::Full | Attrs::FullThenNoCrcs => true,
+            Attrs::Crc32 | Attrs::Full | Attrs::FullThenNoCrcs | Attrs::Crc32ThenNoCrcs => true,
             Attrs::CrcsThenNone => false,
             // generate_crcs(true) alone switches attributes to Crc32
             Attrs::None => self.crcs,
@@ -225,6 +230,9 @@ impl ArchiveSpec {
             }
             Attrs::FullThenNoCrcs => {
                 b = b.attributes_option(AttributesOption::GenerateFull).generate_crcs(false);
+            }
+            Attrs::Crc32ThenNoCrcs => {
+                b = b.attributes_option(AttributesOption::GenerateCrc32).generate_crcs(false);
             }
         }
         let s = self.sector();
@@ -355,6 +363,14 @@ pub fn materialize(class: ContentClass, len: usize, seed: u32) -> Vec<u8> {
                 *b = b"abc "[(xorshift(&mut st) & 3) as usize];
             }
         }
+        ContentClass::Crc32Zero => {
+            fill_random(&mut out, &mut st);
+            if len >= 4 {
+                let tail = crc32_forcing_tail(&out[..len - 4], 0);
+                out[len - 4..].copy_from_slice(&tail);
+                debug_assert_eq!(crc32fast::hash(&out), 0);
+            }
+        }
         ContentClass::RepeatedRandomBlock => {
             let mut pat = vec![0u8; 512];
             fill_random(&mut pat, &mut st);
@@ -362,6 +378,36 @@ pub fn materialize(class: ContentClass, len: usize, seed: u32) -> Vec<u8> {
                 *b = pat[i % 512];
             }
         }
+    }
+    out
+}
+
+/// Four bytes that, appended to `prefix`, make the (reflected, zlib) CRC-32 of the whole equal `target`.
+pub fn crc32_forcing_tail(prefix: &[u8], target: u32) -> [u8; 4] {
+    let mut table = [0u32; 256];
+    for (i, t) in table.iter_mut().enumerate() {
+        let mut c = i as u32;
+        for _ in 0..8 {
+            c = if c & 1 != 0 { 0xEDB8_8320 ^ (c >> 1) } else { c >> 1 };
+        }
+        *t = c;
+    }
+    // register after the prefix, and the register wanted after four more bytes
+    let mut reg = !crc32fast::hash(prefix);
+    let want = !target;
+    // backwards: the table indices of the four steps are fixed by the top bytes
+    let mut idx = [0usize; 4];
+    let mut t = want;
+    for k in (0..4).rev() {
+        let j = (0..256).find(|&j| table[j] >> 24 == t >> 24).expect("crc table top bytes are a permutation");
+        idx[k] = j;
+        t = (t ^ table[j]) << 8;
+    }
+    // forwards: the bytes that select those indices
+    let mut out = [0u8; 4];
+    for k in 0..4 {
+        out[k] = ((reg ^ idx[k] as u32) & 0xFF) as u8;
+        reg = (reg >> 8) ^ table[idx[k]];
     }
     out
 }
@@ -500,6 +546,7 @@ pub fn archive_strategy(p: GenParams) -> impl Strategy<Value = ArchiveSpec> {
             2 => Just(Attrs::Full),
             1 => Just(Attrs::CrcsThenNone),
             1 => Just(Attrs::FullThenNoCrcs),
+            1 => Just(Attrs::Crc32ThenNoCrcs),
         ]
         .boxed()
     } else {
